@@ -448,14 +448,17 @@ class TFLiteSemantic:
                         f"The quantization scale of tensor '{tens.name}' is {tens.quantization.scale_f32}, "
                         + f"minimum supported is: {np.finfo(np.float32).tiny}",
                     )
+        for tens in op.outputs:
+            # (every output of operators that produce several)
+            if tens is not None and tens.is_quantized() and tens.quantization.scale_f32 is not None:
+                if np.any(tens.quantization.scale_f32 < np.finfo(np.float32).tiny):
+                    return (
+                        False,
+                        f"The quantization scale of the output tensor is {tens.quantization.scale_f32}, "
+                        + f"minimum supported is: {np.finfo(np.float32).tiny}",
+                    )
         if op.ofm is not None and op.ofm.is_quantized():
             ofm_scale = op.ofm.quantization.scale_f32
-            if np.any(ofm_scale < np.finfo(np.float32).tiny):
-                return (
-                    False,
-                    f"The quantization scale of the output tensor is {ofm_scale}, "
-                    + f"minimum supported is: {np.finfo(np.float32).tiny}",
-                )
             if op.ifm is not None and op.ifm.is_quantized():
                 ifm_scale = op.ifm.quantization.scale_f32
                 if np.any(np.isinf(ifm_scale / ofm_scale)):
